@@ -270,18 +270,33 @@ class WKCResource(Resource):
                 def matchexp(x, v=v):
                     return x == v
 
-            if k in ("rt", "if", "ct"):
+            def values(link):
+                # The values of the link attribute named k. Not using
+                # getattr(link, k): that iterates single-valued attributes
+                # (title, rel, ...) character by character and finds Python
+                # attributes of the Link object (to_py, attr_pairs, ...).
+                # Attributes without a value (obs) have nothing to compare.
+                return [
+                    value
+                    for key, value in link.attr_pairs
+                    if key.lower() == k.lower() and value is not None
+                ]
+
+            if k in ("rt", "if", "ct", "rel"):
+                # A missing attribute has no parts (and is not matched even
+                # by "*", RFC 6690 Section 4.1)
                 filters.append(
                     lambda link: any(
                         matchexp(part)
-                        for part in (" ".join(getattr(link, k, ()))).split(" ")
+                        for value in values(link)
+                        for part in value.split(" ")
                     )
                 )
             elif k in ("href",):  # x.href is single valued
                 filters.append(lambda link: matchexp(getattr(link, k)))
             else:
                 filters.append(
-                    lambda link: any(matchexp(part) for part in getattr(link, k, ()))
+                    lambda link: any(matchexp(part) for part in values(link))
                 )
 
         while filters:
